@@ -317,7 +317,7 @@ def _rest_of_r1(ctx, repo, scf):
     from .c06 import one_center_first_principles
     try:
         code, codeu, Pd, Pa, Pb = one_center_first_principles(ctx, repo, "R2")
-    except (AnalysisError, KeyError, IndexError, TypeError, AttributeError) as e_:
+    except (AnalysisError, KeyError, IndexError, TypeError, AttributeError, ValueError, __import__("sa.exprs", fromlist=["NotConst"]).NotConst) as e_:
         # the element interpreter understands the straight-line spelling of the one-centre routines only.  Whatever their spelling, both Fock builders are interpreted as a
         # whole (sa.npsym) and compared with the NDDO operator F^s = H + J[P_a + P_b] - K[P^s]; since the restricted builder equals H + J[P] - K[P]/2, the closed-shell
         # reduction F^a(P/2, P/2) = F(P) follows from the two identities (shared with C06-R12)
